@@ -1,9 +1,119 @@
-/- C01 - model (stub: not built yet) -/
+/-
+C01 - model of `verifier.Verify` / `verifier.VerifyBlob` (verifier/verifier.go) and of the
+`notation.VerifyBlob` wrapper (notation.go) around `processSignature`: integrity first and not
+overridable, then the remaining validations (C02), then payload decoding, the comparison of the
+signed target descriptor with the artifact under verification, and the required user metadata.
+
+Parameters (modelled, not verified): the outcome of notation-core-go's `ParseEnvelope` and
+`Verify()` (`parseOk`, `integrityOk`), and encoding/json's decoding of the payload into
+`envelope.Payload` (`decoded`).
+-/
 import NotationModel.Basic
+import NotationModel.Model.C02
 open Lean
 
 namespace NotationModel.C01
 
-def judge (_ : Json) : Except String Json := .error "C01: model not built yet"
+structure Desc where
+  mediaType : String
+  digest : String
+  size : Int
+  annotations : List (String × String)     -- a Go map: keys unique
+  deriving DecidableEq, Repr, FromJson, ToJson
+
+inductive Kind
+  | oci      -- verifier.Verify
+  | blob     -- notation.VerifyBlob -> verifier.VerifyBlob
+  deriving DecidableEq, Repr, FromJson, ToJson
+
+structure Input where
+  kind : Kind
+  skip : Bool              -- the applicable statement's level is skip
+  parseOk : Bool           -- signature.ParseEnvelope succeeds
+  integrityOk : Bool       -- envelope.Verify(): signature valid over payload + signed attributes under the leaf key
+  payloadTypeOk : Bool     -- payload content type is the Notary payload type
+  rest : Bool              -- the remaining validations of processSignature accept (C02)
+  decoded : Option Desc    -- json.Unmarshal(payload, &envelope.Payload{}).TargetArtifact; none = decode error
+  artifact : Desc          -- oci: the descriptor under verification; blob: the descriptor generated from the
+                           -- blob with the hash bound to the signature algorithm, mediaType = the caller's ("" = none)
+  hashSupported : Bool     -- blob: the signature algorithm's hash has a digest algorithm
+  required : List (String × String)   -- user metadata the caller requires
+  deriving Repr, FromJson, ToJson
+
+structure Obs where
+  accepted : Bool              -- the error returned is nil
+  outcomeError : Option Bool   -- outcome.Error != nil (none when no outcome is returned)
+  payload : Option Desc        -- on success: target descriptor decoded from outcome.EnvelopeContent.Payload
+  returned : Option Desc       -- blob, on success: descriptor returned by notation.VerifyBlob (annotations dropped)
+  deriving DecidableEq, Repr, FromJson, ToJson
+
+/-- `content.Equal` of oras-go -/
+def ociEqual (p a : Desc) : Bool := p.size == a.size && p.digest == a.digest && p.mediaType == a.mediaType
+
+/-- the comparison in `verifier.VerifyBlob` -/
+def blobMismatch (p a : Desc) : Bool :=
+  a.digest != p.digest || a.size != p.size || (a.mediaType != "" && a.mediaType != p.mediaType)
+
+/-- `verifyUserMetadata`: Go map lookup with presence check -/
+def metadataOk (p : Desc) (required : List (String × String)) : Bool :=
+  required.all (fun kv => p.annotations.lookup kv.1 == some kv.2)
+
+def reject : Obs := { accepted := false, outcomeError := some true, payload := none, returned := none }
+
+def run (i : Input) : Obs :=
+  if i.skip then
+    -- outcome without envelope content; the blob wrapper returns the zero descriptor
+    { accepted := true, outcomeError := some false, payload := none, returned := none }
+  -- verifyIntegrity: the early return does not consult the action
+  else if !i.parseOk || !i.integrityOk || !i.payloadTypeOk then reject
+  else if !i.rest then reject
+  else match i.decoded with
+    | none => reject
+    | some p =>
+      if i.kind == .blob && !i.hashSupported then reject
+      else
+        let mismatch := match i.kind with
+          | .oci => !ociEqual p i.artifact
+          | .blob => blobMismatch p i.artifact
+        -- the metadata step only ever *sets* the error
+        let err := mismatch || (!i.required.isEmpty && !metadataOk p i.required)
+        if err then reject
+        else { accepted := true, outcomeError := some false, payload := some p,
+               returned := if i.kind == .blob then some { p with annotations := [] } else none }
+
+/-! ### the property over observables -/
+
+def clauses (i : Input) (o : Obs) : Clauses :=
+  let acc := o.accepted && !i.skip
+  [ ("accepted_only_if_envelope_intact",
+      !acc || (i.parseOk && i.integrityOk)),
+    ("accepted_only_if_notary_payload",
+      !acc || (i.payloadTypeOk && i.decoded.isSome)),
+    ("accepted_only_if_other_validations_accept", !acc || i.rest),
+    ("accepted_only_if_target_is_the_artifact",
+      !acc || match i.decoded with
+        | some p => p.digest == i.artifact.digest && p.size == i.artifact.size &&
+            (match i.kind with
+             | .oci => p.mediaType == i.artifact.mediaType
+             | .blob => i.artifact.mediaType == "" || p.mediaType == i.artifact.mediaType)
+        | none => false),
+    ("accepted_only_if_required_metadata_signed",
+      !acc || match i.decoded with
+        | some p => i.required.all (fun kv => p.annotations.lookup kv.1 == some kv.2)
+        | none => false),
+    ("reported_payload_is_the_signed_payload",
+      !acc || o.payload == i.decoded),
+    ("blob_returns_the_verified_descriptor",
+      !(acc && i.kind == .blob) || match o.returned, i.decoded with
+        | some r, some p => r.digest == p.digest && r.size == p.size && r.mediaType == p.mediaType
+        | _, _ => false),
+    ("error_and_outcome_consistent",
+      match o.outcomeError with
+      | some e => e == !o.accepted
+      | none => !o.accepted) ]
+
+def Holds (i : Input) (o : Obs) : Bool := (clauses i o).holds
+
+def judge := judgeWith run clauses
 
 end NotationModel.C01
